@@ -36,7 +36,7 @@ FewOpts == {NoOpts, O(TRUE, TRUE, FALSE, ""), O(FALSE, FALSE, FALSE, "a"), O(FAL
 \* ----------------------------------------------------------------- sub-key spellings (sequences of characters)
 S0 == <<>>
 SubsHd == { <<"0">>, <<"1", "H">>, <<"0", "/", "1", "'">>, <<"2", "p", "/", "3">>, <<"0", "-", "1">>,
-            <<"0", ",", "2", "H", "/", "1">>, <<"4", "4", "H", "/", "0", "H", "/", "0", "-", "1">>,
+            <<"0", ",", "2", "H", "/", "1">>, <<"4", "4", "H", "/", "0", "H", "/", "0", "-", "1">>, <<"5", "-", "6", "/", "7", "-", "8">>,
             <<"0", "/", "1", ".", "p", "u", "b">>, <<"2", "1", "4", "7", "4", "8", "3", "6", "4", "7">>,
             <<"2", "1", "4", "7", "4", "8", "3", "6", "4", "7", "H">>, <<"1", "6", "7", "7", "7", "2", "1", "6", "/", "0", "0", "9">> }
 SubsHdT == SubsHd \cup { <<"0", "/", "0", "/", "0", "/", "0", "/", "5", "-", "6">>, <<"1", "-", "2", "H", ",", "7", "/", "0", "-", "1">>,
